@@ -1,4 +1,4 @@
-(* ChronoTs.v — CBinTimestamp conversions (bin_timestamp.h after the F07 repair): value -> (floor
+(* ChronoTs.v — CBinTimestamp conversions (bin_timestamp.h after the F07 repair, SafeDurationCast after 30f5d3e): value -> (floor
    seconds, nanoseconds in 0..999999999) -> value is the identity for every representable value. *)
 From BS Require Import Base ChronoSpec ChronoModel ChronoArith ChronoDecimal ChronoSweep ChronoCalendar ChronoYear
   ChronoSafe ChronoSafeAdd ChronoText ChronoTp ChronoTpParse.
@@ -49,8 +49,6 @@ Proof.
     + lia.
     + lia.
     + apply simple_ratio_to_sec; exact Hs.
-    + intros (_ & H & _). discriminate H.
-    + intros (_ & _ & _ & H). apply H. apply ratio_snd_to_sec; exact Hs.
     + unfold exact_cast. cbn [d_num d_den]. lia.
   - rewrite safe_cast_reject; cbn [d_rep d_num d_den]; try assumption; try reflexivity.
     + right. right. left. reflexivity.
@@ -59,8 +57,6 @@ Proof.
     + lia.
     + lia.
     + apply simple_ratio_to_sec; exact Hs.
-    + intros (_ & H & _). discriminate H.
-    + intros (_ & _ & _ & H). apply H. apply ratio_snd_to_sec; exact Hs.
     + intros v Hv Hx. unfold exact_cast in Hx. cbn [d_num d_den] in Hx.
       assert (v = t * pnum P) by lia. subst v. congruence.
 Qed.
@@ -107,8 +103,6 @@ Proof.
   - lia.
   - lia.
   - apply simple_ratio_from_sec.
-  - intros (_ & H & Hneg & _). specialize (Hu H). lia.
-  - intros (H & _). discriminate H.
   - unfold exact_cast. cbn [d_num d_den]. lia.
 Qed.
 
@@ -142,8 +136,6 @@ Proof.
     + nia.
     + exact Hr.
     + unfold simple_ratio. rewrite (ratio_div_self (mkD I32 (pnum P) (pden P))); [left; reflexivity | split; cbn; lia | reflexivity | reflexivity].
-    + intros (_ & H & _). discriminate H.
-    + intros (H & _). discriminate H.
     + apply fits_I32 in Hr. apply fits_I64. lia.
     + unfold exact_cast, op_dty, pty. cbn [d_num d_den]. ring.
   - change (op_dty (pty P U64) (pty P U64)) with (pty P U64). apply safe_cast_same.
